@@ -9,7 +9,7 @@ from persim import bottleneck
 from ..core import Clause, close
 from ..oracles import matching as M
 from ..strategies import diagram_family, valid_family
-from ._dist import (EMPTY_FORMS, INF, as_input, call_quiet, coord_scale, has_dup, lattice_slice_cases,
+from ._dist import (near_identical_pair, EMPTY_FORMS, INF, as_input, call_quiet, coord_scale, has_dup, lattice_slice_cases,
                     pair_labels, small_pairs)
 
 HASHSEEDS = "vary"   # shard i runs with PYTHONHASHSEED=i: the Hopcroft-Karp search order is a per-process configuration
@@ -129,6 +129,17 @@ def check_cross(case, ctx):
     ctx.require(close(out, ref, scale), "value", lambda: "bottleneck=%r reference=%r A=%s B=%s" % (out, ref, A, B))
 
 
+def check_near_identical(case, ctx):
+    fam = case["fam"]
+    A, B = fam["dgms"]
+    ctx.label("mode:" + fam["mode"], "k=%d" % case["k"])
+    ref, _ = M.brute(A, B, "b")
+    ctx.nontrivial(len(A) >= 2 and ref > 0)
+    out = ctx.call(bottleneck, as_input(A), as_input(B))
+    ctx.require(close(out, ref, coord_scale(A, B)[0]), "value",
+                lambda: "bottleneck=%r, min over all matchings=%r (nearly identical diagrams, perturbation 1e-%d); A=%s B=%s" % (out, ref, case["k"], A, B))
+
+
 CLAUSES = [
     Clause("value_small", s_value_small, check_value_small, quick=6400, thorough=80000, fuzz=True,
            floors={"mixed_optimum": 0.05, "tie": 0.05},
@@ -138,6 +149,9 @@ CLAUSES = [
     Clause("value_medium", s_value_medium, check_value_medium, quick=960, thorough=8000,
            rule="0..30 points each; oracle = threshold search with one-sided bipartite matchings (scipy), self-checked against "
                 "the brute force whenever <= 2000 matchings; non-trivial = both non-empty and one has >= 6 points"),
+    Clause("near_identical", near_identical_pair(5), check_near_identical, quick=3200, thorough=40000,
+           rule="B = permuted copy of A (1..5 points) with coordinates moved by (-3..3)*10^-k*max|coord|, k in 3..15; brute-force oracle; "
+                "non-trivial = >= 2 points and a non-zero true distance"),
     Clause("inf_dropped", s_inf(), check_inf, quick=1600, thorough=20000,
            rule="1..2 points with infinite death inserted at generated positions in either/both diagrams; value must equal the "
                 "brute-force value of the finite parts, a UserWarning must name exactly the affected argument(s); "
